@@ -155,11 +155,11 @@ Theorem C06_src_partitions_unknown_count : forall divs (sel : list nat) n,
 Proof. exact src_partitions_unknown_count. Qed.
 Print Assumptions C06_src_partitions_unknown_count.
 
-Theorem C06_src_fused_truthful : forall divs parts parts_sel step,
+Theorem C06_src_fused_truthful : forall divs seldivs parts parts_sel step d,
   truthful divs parts -> strictly_increasingb parts_sel = true ->
   (forall p, In p parts_sel -> p < length parts) -> 1 <= step -> parts_sel <> [] ->
-  truthful (src_FusedIO_divisions divs (map zs (fusion_buckets parts_sel step)))
-           (fused_parts parts (fusion_buckets parts_sel step)).
+  src_FusedIO_divisions divs seldivs (map zs (fusion_buckets parts_sel step)) = Known d ->
+  truthful d (fused_parts parts (fusion_buckets parts_sel step)).
 Proof. exact src_fused_truthful. Qed.
 Print Assumptions C06_src_fused_truthful.
 
